@@ -16,8 +16,8 @@ static var CELLS[64];                           /* the address pool: 64 consecut
 #define CELL(k) ((var)&CELLS[(k)])
 static struct GCEntry ENT_A[12], ENT_B[12]; static var FREELIST[4];
 static int cv_pool_b_used, cv_freed_a, cv_freed_b, cv_freed_fl, cv_reallocs;
-void* calloc(size_t n, size_t s) { __CPROVER_assert(s == sizeof(struct GCEntry) && n <= 12 && !cv_pool_b_used, "harness: one rehash allocation"); cv_pool_b_used = 1; static const struct GCEntry z[12]; __CPROVER_array_copy(ENT_B, z); return ENT_B; }
-void* realloc(void* p, size_t n) { cv_reallocs++; __CPROVER_assert((p == NULL || p == (void*)FREELIST) && n <= sizeof(FREELIST), "harness: freelist large enough"); return FREELIST; }
+void* calloc(size_t n, size_t s) { CV_LIMIT(s == sizeof(struct GCEntry) && n <= 12 && !cv_pool_b_used, "harness: one rehash allocation"); cv_pool_b_used = 1; static const struct GCEntry z[12]; __CPROVER_array_copy(ENT_B, z); return ENT_B; }
+void* realloc(void* p, size_t n) { cv_reallocs++; CV_LIMIT((p == NULL || p == (void*)FREELIST) && n <= sizeof(FREELIST), "harness: freelist large enough"); return FREELIST; }
 void free(void* p) {
   if (p == NULL) return;
   if (p == (void*)ENT_A) { __CPROVER_assert(!cv_freed_a, "[C06] the slot array is freed once"); cv_freed_a = 1; return; }
@@ -176,7 +176,7 @@ void h_mark_item(void) {
 static var cv_type; static struct Mark cv_mark_inst; static int cv_mark_inst_calls; static void (*cv_mark_f)(var, void*);
 static void cv_mark_fn(var self, var g, void (*f)(var, void*)) { cv_mark_inst_calls++; cv_mark_f = f; }
 var type_of(var self) { return cv_type; }
-var type_instance(var type, var cls) { __CPROVER_assert(cls == Mark, "harness: type_instance(type, Mark)"); return (type == Array || type == Table) ? &cv_mark_inst : NULL; }
+var type_instance(var type, var cls) { CV_LIMIT(cls == Mark, "harness: type_instance(type, Mark)"); return (type == Array || type == Table) ? &cv_mark_inst : NULL; }
 size_t size(var type) { return type == Ref ? sizeof(struct Ref) : type == Range ? sizeof(struct Range) : 0; }
 static int cv_mi_calls, cv_mi_q; static void* cv_mi_args[8];
 void cv_mark_item(void* g, void* ptr) { if (cv_mi_calls < 8) cv_mi_args[cv_mi_calls] = ptr; cv_mi_calls++; if (ptr == gh_q) cv_mi_q++; }
@@ -338,7 +338,7 @@ void h_sweep_owner_concrete(void) {
   if (ORDER == 0) { gc->nitems++; GC_Set_Ptr(gc, in_p, false); gc->nitems++; GC_Set_Ptr(gc, gh_q, false); }
   else { gc->nitems++; GC_Set_Ptr(gc, gh_q, false); gc->nitems++; GC_Set_Ptr(gc, in_p, false); }
   for (int i = 0; i < 3; i++) if (ENT_A[i].hash != 0 && ENT_A[i].ptr == gh_q) ENT_A[i].marked = MQ;
-  __CPROVER_assert(wf_gc(gc, 3, 0), "harness: pre-state built by the real GC_Set_Ptr is well formed");
+  CV_LIMIT(wf_gc(gc, 3, 0), "harness: pre-state built by the real GC_Set_Ptr is well formed");
   cv_reenter = 1; cv_reenter_target = in_p;
   GC_Sweep(gc);
   ASSERT(cv_destructs_q == 1 && cv_deallocs_q == 1, "[C06] an object owned by a swept owner is finalised exactly once and released exactly once, whichever of the two the sweep reaches first");
